@@ -735,7 +735,8 @@ Proof.
   destruct (root_spec (root_pos_eff nm o)) as [rt| | |]; try discriminate. cbn [bind] in S.
   exists sb, rt. split; [reflexivity|]. split; [reflexivity|].
   destruct (match rt with RNone => true | _ => in_field (m_root mz) end); [|discriminate].
-  injection S as S'. rewrite S', E2, E3, E4.
+  apply (f_equal (fun r : res (list Z) => match r with Ok l => l | _ => [] end)) in S.
+  cbv beta iota in S. rewrite S, E2, E3, E4.
   pose proof (schema_hash_range O ty) as Hs.
   rewrite (Z.mod_small _ _ Hs), (Z.mod_small _ _ Hv), (Z.mod_small _ _ Hn). reflexivity.
 Qed.
@@ -847,7 +848,7 @@ Corollary history_nth : forall O creds ks st i k,
   nth_error (fst (run_history O creds st ks)) i = Some (fst (run_call O creds st k)).
 Proof.
   intros O creds ks st i k H. destruct (history_independent O creds ks st) as (_ & E).
-  rewrite E. now apply map_nth_error.
+  rewrite E. exact (map_nth_error (fun k0 => fst (run_call O creds st k0)) i ks H).
 Qed.
 
 (* ================= independence of the term-map order ================= *)
@@ -929,3 +930,112 @@ Proof.
   unfold to_core_claim, to_core_claim_at. rewrite E.
   destruct (tcc_prefix (with_ctx c (Some ts'))) as [[[[mz ty] sl] nm]| | |]; try reflexivity.
 Qed.
+
+(* ================= the data slots ================= *)
+
+Theorem parse_slots_spec : forall c mz tp sl nm,
+  parse_slots c mz tp = Ok (sl, nm) ->
+  exists a, get_serialization_attr c tp = Ok a /\
+    (a = "" -> nm = false /\ sl = slots_zero) /\
+    (a <> "" -> nm = true /\
+       exists sp, parse_serialization_attr a = Ok sp /\
+         let enc p := if String.eqb p "" then Ok 0 else v <- m_field mz p ;; Ok (v mod 2 ^ 256) in
+         (paths_is_empty sp = true -> sl = slots_zero) /\
+         (paths_is_empty sp = false ->
+            enc (p_index_a sp) = Ok (s_index_a sl) /\ enc (p_index_b sp) = Ok (s_index_b sl) /\
+            enc (p_value_a sp) = Ok (s_value_a sl) /\ enc (p_value_b sp) = Ok (s_value_b sl))).
+Proof.
+  intros c mz tp sl nm H. unfold parse_slots in H.
+  destruct (get_serialization_attr c tp) as [a| | |]; try discriminate. cbn [bind] in H.
+  exists a. split; [reflexivity|].
+  destruct (String.eqb a "") eqn:Ea.
+  - apply String.eqb_eq in Ea. inversion H; subst. split; [tauto|]. intros Hne. congruence.
+  - apply String.eqb_neq in Ea. split; [intros He; congruence|]. intros _.
+    destruct (parse_serialization_attr a) as [sp| | |]; try discriminate. cbn [bind] in H.
+    destruct (paths_is_empty sp) eqn:Hemp.
+    + inversion H; subst. split; [reflexivity|]. exists sp. split; [reflexivity|].
+      cbv zeta. split; [reflexivity|intros Hf; congruence].
+    + unfold fill_slot in H.
+      destruct (if String.eqb (p_index_a sp) "" then Ok 0 else v <- m_field mz (p_index_a sp);; Ok (v mod 2 ^ 256))
+        as [ia| | |] eqn:E1; try discriminate. cbn [bind] in H.
+      destruct (if String.eqb (p_index_b sp) "" then Ok 0 else v <- m_field mz (p_index_b sp);; Ok (v mod 2 ^ 256))
+        as [ib| | |] eqn:E2; try discriminate. cbn [bind] in H.
+      destruct (if String.eqb (p_value_a sp) "" then Ok 0 else v <- m_field mz (p_value_a sp);; Ok (v mod 2 ^ 256))
+        as [va| | |] eqn:E3; try discriminate. cbn [bind] in H.
+      destruct (if String.eqb (p_value_b sp) "" then Ok 0 else v <- m_field mz (p_value_b sp);; Ok (v mod 2 ^ 256))
+        as [vb| | |] eqn:E4; try discriminate. cbn [bind] in H.
+      inversion H; subst. split; [reflexivity|]. exists sp. split; [reflexivity|].
+      cbv zeta. split; [intros Ht; congruence|]. intros _. cbn [s_index_a s_index_b s_value_a s_value_b]. tauto.
+Qed.
+
+(* ================= examples (non-vacuity) ================= *)
+
+Definition ex_oracles : oracles :=
+  {| keccak := fun s => if String.eqb s "urn:T" then 2 ^ 255 + 258 else 7;
+     did_to_id := fun s => if String.eqb s "did:x" then Some 12345 else None |}.
+Definition ex_mz : mzview :=
+  {| m_cs_type := Some (RVStr "urn:T"); m_top_type := None; m_root := 777;
+     m_field := fun p => if String.eqb p "a" then Ok 5 else if String.eqb p "b" then Ok 6 else Err "field" |}.
+Definition ex_term (ser : string) : term :=
+  {| t_name := "T"; t_is_map := true; t_ctx := Some (CtxMap (Some ser)); t_id := "urn:T" |}.
+Definition ex_other : term :=
+  {| t_name := "Aaa"; t_is_map := true; t_ctx := Some CtxOther; t_id := "urn:A" |}.
+(* merklized schema, subject id, expiration before 1970 *)
+Definition ex_cred_m : cred :=
+  {| c_mz := Some ex_mz; c_subject := Some "did:x"; c_expiration := Some (-1); c_ctx := Some [ex_other] |}.
+(* serialized schema: slotIndexA = a, slotValueB = b *)
+Definition ex_cred_s : cred :=
+  {| c_mz := Some ex_mz; c_subject := None; c_expiration := None;
+     c_ctx := Some [ex_term "iden3:v1:slotIndexA=a&slotValueB=b"; ex_other] |}.
+Definition ex_opts : opts :=
+  {| o_nonce := 9; o_version := 3; o_subject_pos := "value"; o_root_pos := ""; o_updatable := true |}.
+
+Example ex_layout_merklized :
+  rmap ints (fst (to_core_claim ex_oracles ex_cred_m (Some ex_opts))) =
+  Ok [ (256 ^ 14 + 2 * 256 ^ 15) + 2 ^ 128 * (3 + 8 * 1 + 16 * 1 + 32 * 1) + 2 ^ 160 * 3;
+       0; 777; 0; 9 + 2 ^ 64 * (2 ^ 64 - 1); 12345; 0; 0 ].
+Proof. vm_compute. reflexivity. Qed.
+
+Example ex_layout_serialized :
+  rmap ints (fst (to_core_claim ex_oracles ex_cred_s (Some ex_opts))) =
+  Ok [ (256 ^ 14 + 2 * 256 ^ 15) + 2 ^ 128 * (0 + 8 * 0 + 16 * 1 + 32 * 0) + 2 ^ 160 * 3;
+       0; 5; 0; 9; 0; 0; 6 ].
+Proof. vm_compute. reflexivity. Qed.
+
+Example ex_root_for_serialized_is_error :
+  fst (to_core_claim ex_oracles ex_cred_s (Some (with_root_pos ex_opts "index"))) = Err "root-position-not-supported".
+Proof. vm_compute. reflexivity. Qed.
+
+(* what purity excludes: the code before commit a78f738 left "index" in the caller's object ... *)
+Example ex_unrepaired_writes :
+  snd (to_core_claim_unrepaired ex_oracles ex_cred_m (Some ex_opts)) = Some (with_root_pos ex_opts "index").
+Proof. vm_compute. reflexivity. Qed.
+(* ... so that a later call on a serialized credential with the same object failed *)
+Example ex_unrepaired_history :
+  fst (to_core_claim ex_oracles ex_cred_s (snd (to_core_claim_unrepaired ex_oracles ex_cred_m (Some ex_opts))))
+  = Err "root-position-not-supported" /\
+  is_ok (fst (to_core_claim ex_oracles ex_cred_s (snd (to_core_claim ex_oracles ex_cred_m (Some ex_opts))))) = true.
+Proof. vm_compute. split; reflexivity. Qed.
+
+Example ex_history :
+  fst (run_history ex_oracles [ex_cred_m; ex_cred_s] [ex_opts]
+         [ {| k_cred := 0; k_opts := Some 0%nat |}; {| k_cred := 1; k_opts := Some 0%nat |};
+           {| k_cred := 0; k_opts := None |} ])
+  = [ fst (to_core_claim ex_oracles ex_cred_m (Some ex_opts));
+      fst (to_core_claim ex_oracles ex_cred_s (Some ex_opts));
+      fst (to_core_claim ex_oracles ex_cred_m None) ].
+Proof. vm_compute. reflexivity. Qed.
+
+Example ex_term_order :
+  Permutation [ex_term "iden3:v1:slotIndexA=a"; ex_other] [ex_other; ex_term "iden3:v1:slotIndexA=a"] /\
+  NoDup (map t_name [ex_term "iden3:v1:slotIndexA=a"; ex_other]) /\
+  serialization_attr_of_context [ex_other; ex_term "iden3:v1:slotIndexA=a"] "urn:T" = Ok "iden3:v1:slotIndexA=a".
+Proof.
+  split; [apply perm_swap|]. split; [|reflexivity].
+  repeat constructor; cbn; intuition discriminate.
+Qed.
+
+Example ex_schema_hash :
+  schema_hash ex_oracles "urn:T" = 256 ^ 14 + 2 * 256 ^ 15 /\
+  skipn 16 (be_bytes 32 (keccak ex_oracles "urn:T")) = [0;0;0;0;0;0;0;0;0;0;0;0;0;0;1;2]%Z.
+Proof. vm_compute. split; reflexivity. Qed.
